@@ -411,3 +411,16 @@ Definition mflags (ms : mshared) : bool * bool := (ms_bad ms, ms_chk ms).
 Definition minit (words : list Z) (listed : list nat) : mshared :=
   mkMS (map (fun w => mkC w None [] 0 false None) words) None [] [] false false 0
        listed (mapi (fun j _ => memn j listed) words) false false.
+
+(* The registration window (a fixed scenario, run by the harness on the real
+   code and by Props/C03 inside Coq): file open; goroutine 0 claims a fresh
+   counter and stops before the link; goroutine 1's Add finds it claimed and
+   gets a pointer into mapping 0; a rotation (goroutine 2) stores mapping 1,
+   its walk misses the counter, it closes mapping 0; goroutine 3's Add(4)
+   goes through the closed mapping; then goroutine 0 links and redoes. *)
+Definition regwin_init : mstate :=
+  (mkMS [mkC 0 None [0] 0 false None] (Some 0%nat) [0%nat] [] false false 1 [] [false] false false,
+   [adderM 1 0 1; adderM 1 0 2; changerM 1 NewFile; adderM 1 0 4]).
+Definition regwin_sched : list nat := ([0;0;0;0] ++ repeat 1 20 ++ repeat 2 30 ++ repeat 3 20 ++ repeat 0 40)%nat.
+Definition regwin_faults : Z :=
+  fold_right Z.add 0 (map c_faults (ms_ctrs (fst (mrun regwin_sched regwin_init)))).
